@@ -12,7 +12,7 @@ ASSUMPTIONS = [
 ]
 BOUNDS = {
     "quick": "pair, chain-3, pair + unconstrained variable; domain 2; min and max; costs in [-2^40,2^40] and non-negative variants",
-    "thorough": "quick + triangle, star-3, two pairs, domain 3 on the pair, chain-3 with one domain of size 3",
+    "thorough": "quick + triangle, domain 3 on the pair, chain-3 with one domain of size 3; bug hunting only (cpu budget): star-3, two pairs, chain-3 with domain 3",
 }
 OUTSIDE = "more than 4 variables, domain above 3, non-binary constraints (unsupported by the algorithm), float costs"
 CAP_S = {"quick": 900, "thorough": 5400}
@@ -26,9 +26,13 @@ def jobs(tier):
             for rng in ("any", "nonneg"):
                 out.append({"name": "%s-%s-%s" % (s, mode, rng), "spec": spec(s, mode), "range": rng})
     if tier == "thorough":
+        # bug-hunting jobs (budgeted, not part of the verdict unless their frontier empties): > 10^5 paths each
         for s in ["star3", "two_pairs"]:
             for mode in ("min", "max"):
-                out.append({"name": "%s-%s-nonneg" % (s, mode), "spec": spec(s, mode), "range": "nonneg"})
+                out.append({"name": "%s-%s-nonneg" % (s, mode), "spec": spec(s, mode), "range": "nonneg", "hunt_cpu_s": 1500})
+        for mode in ("min", "max"):
+            out.append({"name": "chain3-dom3-%s-nonneg" % mode, "spec": spec("chain3", mode, dom=3), "range": "nonneg",
+                        "hunt_cpu_s": 1500})
         for mode in ("min", "max"):
             out.append({"name": "pair-dom3-%s-nonneg" % mode, "spec": spec("pair", mode, dom=3), "range": "nonneg"})
             # chain-3 with all domains of size 3 does not exhaust (> 0.5 million paths in 25 min): one variable of size 3
